@@ -39,6 +39,7 @@ pub fn run_case(lines: &[Vec<String>], o: &mut Out) {
     let mut ns: Vec<Nd> = vec![];
     let mut es: Vec<E> = vec![];
     let mut absent: i64 = -1;
+    let mut readd: Vec<i64> = vec![];
     for l in lines {
         let mut t = Toks::new(l);
         match t.s() {
@@ -50,13 +51,22 @@ pub fn run_case(lines: &[Vec<String>], o: &mut Out) {
                 es = (0..ke).map(|_| parse_edge(&mut t)).collect();
             }
             "absent" => absent = t.i(),
+            "readd" => readd = t.rest_i(),
             x => {
                 eprintln!("comp: unknown line {}", x);
                 std::process::exit(2);
             }
         }
     }
-    let r = guard(|| G::new_from_nodes_and_edges(ns, es, specs.clone()));
+    // build, then re-add the listed (existing) nodes: add_node on an existing name only updates its attributes
+    let r = guard(|| {
+        G::new_from_nodes_and_edges(ns, es, specs.clone()).map(|mut g| {
+            for x in &readd {
+                g.add_node(Arc::new(graphrs::Node { name: *x, attributes: Some(7) }));
+            }
+            g
+        })
+    });
     o.obs(1, &[vec![res_code(&r)]], &[]);
     let g: Arc<G> = match r {
         Some(Ok(g)) => Arc::new(g),
